@@ -41,6 +41,23 @@ use super::{
     ParserInput,
 };
 
+/// Parse a literal integer with an optional leading minus sign. Values outside of the range of
+/// `i64` are rejected.
+fn parse_signed_integer<'a>(input: ParserInput<'a>) -> InternalParserResult<'a, i64> {
+    map_res(
+        tuple((opt(token!(Operator(Operator::Minus))), token!(Integer(v)))),
+        |(op, v)| {
+            let value = match op {
+                None => i128::from(v),
+                Some(()) => -i128::from(v),
+            };
+            i64::try_from(value).map_err(|_| {
+                InternalParseError::from_kind(input, ParserErrorKind::UnsupportedPrecision)
+            })
+        },
+    )(input)
+}
+
 /// Parse the operand of an arithmetic instruction, which may be a literal integer, literal real
 /// number, or memory reference.
 pub(crate) fn parse_arithmetic_operand<'a>(
@@ -57,16 +74,7 @@ pub(crate) fn parse_arithmetic_operand<'a>(
                 ArithmeticOperand::LiteralReal(sign * v)
             },
         ),
-        map(
-            tuple((opt(token!(Operator(Operator::Minus))), token!(Integer(v)))),
-            |(op, v)| {
-                let sign = match op {
-                    None => 1,
-                    Some(()) => -1,
-                };
-                ArithmeticOperand::LiteralInteger(sign * (v as i64))
-            },
-        ),
+        map(parse_signed_integer, ArithmeticOperand::LiteralInteger),
         map(parse_memory_reference, ArithmeticOperand::MemoryReference),
     ))(input)
 }
@@ -87,16 +95,7 @@ pub(crate) fn parse_comparison_operand<'a>(
                 ComparisonOperand::LiteralReal(sign * v)
             },
         ),
-        map(
-            tuple((opt(token!(Operator(Operator::Minus))), token!(Integer(v)))),
-            |(op, v)| {
-                let sign = match op {
-                    None => 1,
-                    Some(()) => -1,
-                };
-                ComparisonOperand::LiteralInteger(sign * (v as i64))
-            },
-        ),
+        map(parse_signed_integer, ComparisonOperand::LiteralInteger),
         map(parse_memory_reference, ComparisonOperand::MemoryReference),
     ))(input)
 }
@@ -106,16 +105,7 @@ pub(crate) fn parse_binary_logic_operand<'a>(
     input: ParserInput<'a>,
 ) -> InternalParserResult<'a, BinaryOperand> {
     alt((
-        map(
-            tuple((opt(token!(Operator(Operator::Minus))), token!(Integer(v)))),
-            |(op, v)| {
-                let sign = match op {
-                    None => 1,
-                    Some(()) => -1,
-                };
-                BinaryOperand::LiteralInteger(sign * (v as i64))
-            },
-        ),
+        map(parse_signed_integer, BinaryOperand::LiteralInteger),
         map(parse_memory_reference, BinaryOperand::MemoryReference),
     ))(input)
 }
